@@ -174,3 +174,57 @@ def floor(rule, what, found, minimum):
     if found < minimum:
         raise AnalysisError('%s: %s: found %d, expected at least %d '
                             '(instance floor)' % (rule, what, found, minimum))
+
+
+class Attempts(object):
+    """run the rules of one property independently: a rule that cannot be
+    decided (construct outside the interpreted fragment, vanished anchor,
+    internal error) is recorded and the other rules still run.  A positive
+    finding of any rule is reported (exit 1); with no finding, an undecided
+    rule makes the run INCONCLUSIVE (exit 2) -- never a silent pass."""
+
+    def __init__(self):
+        self.inconclusive = []
+
+    def __call__(self, fn, *a, **kw):
+        n = kw.pop('_n', 1)
+        from .program import AnalysisError, Inconclusive
+        try:
+            return fn(*a, **kw)
+        except Inconclusive as e:
+            self.inconclusive.append('INCONCLUSIVE %s' % e)
+            if getattr(e, 'partial', None) is not None:
+                # what the rule had established before it met the
+                # construct it could not decide
+                return e.partial
+        except AnalysisError as e:
+            self.inconclusive.append('ANALYSIS-ERROR %s' % e)
+        except Exception as e:
+            import traceback
+            tb = traceback.format_exc().strip().splitlines()
+            self.inconclusive.append(
+                'ANALYSIS-ERROR internal error in %s: %s: %s [%s]' % (
+                    getattr(fn, '__name__', fn), e.__class__.__name__, e,
+                    tb[-3].strip() if len(tb) >= 3 else ''))
+        return None if n == 1 else (None,) * n
+
+    def skipped(self, what):
+        self.inconclusive.append('INCONCLUSIVE %s not run (a rule it depends '
+                                 'on was undecided)' % what)
+
+    def results(self, *rs):
+        out = []
+        for r in rs:
+            if r is None:
+                continue
+            if isinstance(r, (list, tuple)):
+                out.extend(x for x in r if x is not None)
+            else:
+                out.append(r)
+        return out
+
+    def extra(self, d=None):
+        d = dict(d or {})
+        if self.inconclusive:
+            d['undecided_rules'] = list(self.inconclusive)
+        return d
